@@ -30,3 +30,11 @@ Definition best_std (counts:list (nat * Z)) : option nat * Z := fold_left best_s
 (* count_instances: the regex `Available transformation instances: ([0-9]+)$` must match at
    the start of stdout, else 0 *)
 Definition count_of (parsed:option Z) : Z := match parsed with Some n => n | None => 0%Z end.
+
+(* ClangBinarySearchPass.new for a given standard: the cursor is created from what the count query yielded; the real
+   create() refuses only a zero count (`if not instances`), so the model keeps a non-zero count as it is (a negative
+   one included: a cursor with no valid range) *)
+Inductive query := QTimeout | QError | QNoCount | QCount (n:Z).
+Definition query_count (q:query) : Z := match q with QCount n => n | _ => 0%Z end.
+Definition cbs_new (q:query) : option (Z * Z * Z) :=
+  let c := query_count q in if (c =? 0)%Z then None else Some (0%Z, c, c).
